@@ -21,12 +21,12 @@ def needs(path, limit=170):
         txt = open(path).read()
     except OSError:
         return ""
-    m = re.search(r"(?is)what it needs[^\n]*\n+(.*?)(\n#|\n\n\n|\Z)", txt)
-    if not m:
-        m = re.search(r"(?is)needs?( to manifest)?\s*:?\**\s*(.*?)(\n\n|\Z)", txt)
-        body = m.group(2) if m else ""
+    m = re.search(r"(?im)^#+[^\n]*(needs|needed)[^\n]*\n+((?:(?!^#).*\n?)*)", txt)
+    if m:
+        body = m.group(2)
     else:
-        body = m.group(1)
+        m = re.search(r"(?is)\*\*what it needs:?\*\*:?\s*(.*?)(\n\n|\Z)", txt) or re.search(r"(?is)needs?:\s*(.*?)(\n\n|\Z)", txt)
+        body = m.group(1) if m else ""
     body = re.sub(r"\s+", " ", body).strip(" -*")
     return body[:limit]
 
